@@ -1994,6 +1994,10 @@ class ReferenceManager:
         else:
             raise RuntimeError("must not happen")
 
+        # Add the new ref first in case value is the previous value
+        if not isinstance(value, Interface):
+            self._valid_to_refs.setdefault(id(value), []).append(refdict[name])
+
         refs = self._valid_to_refs.get(prev_valid, None)
         if refs is not None:        # None in case prev_ref is derived
             if prev_ref in refs:
@@ -2003,9 +2007,6 @@ class ReferenceManager:
                 spec = self._manager.get_spec_from_value(self._model.interface, prev_val)
                 if spec:
                     self._manager.del_spec(spec)
-
-        if not isinstance(value, Interface):
-            self._valid_to_refs.setdefault(id(value), []).append(refdict[name])
 
     def del_all_spec(self):
         specs = self.specs.copy()
